@@ -77,6 +77,16 @@ where
         }
     }
 
+    /// A copy of this capability whose client runs `middleware` for every request
+    /// (test-only instrumentation: client-level middleware has no public constructor yet).
+    #[cfg(feature = "verif")]
+    pub fn verif_with_client_middleware(&self, middleware: impl middleware::Middleware) -> Self {
+        Self {
+            context: self.context.clone(),
+            client: self.client.clone().with(middleware),
+        }
+    }
+
     /// Instruct the Shell to perform a HTTP GET request to the provided `url`.
     ///
     /// The request can be configured via associated functions on `RequestBuilder`
